@@ -41,13 +41,14 @@ class PassTimeout(Exception):
 def time_limit(seconds):
     def handler(signum, frame):
         raise PassTimeout(f"no result after {seconds}s")
-    old = signal.signal(signal.SIGALRM, handler)
-    signal.setitimer(signal.ITIMER_REAL, seconds)
+    # CPU time of this process (user mode), not wall-clock time: independent of the machine load
+    old = signal.signal(signal.SIGVTALRM, handler)
+    signal.setitimer(signal.ITIMER_VIRTUAL, seconds)
     try:
         yield
     finally:
-        signal.setitimer(signal.ITIMER_REAL, 0)
-        signal.signal(signal.SIGALRM, old)
+        signal.setitimer(signal.ITIMER_VIRTUAL, 0)
+        signal.signal(signal.SIGVTALRM, old)
 
 
 # ------------------------------------------------------------------------------------------------
